@@ -192,6 +192,35 @@ func c08edits(doc *jmut.Node) []c08edit {
 					out = append(out, c08edit{"add-known-member", append(append(jmut.Path{}, p...), jmut.Elem{Key: add.Key, Idx: -1}), d})
 				}
 			}
+			// a repeated member: the JSON reader keeps the last occurrence, so a second
+			// occurrence with another value after the first is a change, and one before it is not
+			if len(p) <= 1 {
+				for mi, m := range x.M {
+					var v2 *jmut.Node
+					switch {
+					case m.Key == "$schema" && m.Val.K == jmut.Str:
+						other := "https://gobl.org/draft-0/org/party"
+						if strings.HasSuffix(m.Val.S, "org/party") {
+							other = "https://gobl.org/draft-0/org/item"
+						}
+						v2 = jmut.S(other)
+					case m.Val.K == jmut.Str || m.Val.K == jmut.Num || m.Val.K == jmut.Bool:
+						v2, _ = alterLeaf(m.Val)
+					}
+					if v2 == nil {
+						continue
+					}
+					kp := append(append(jmut.Path{}, p...), jmut.Elem{Key: m.Key, Idx: -1})
+					d := doc.Clone()
+					o := d.At(p)
+					o.M = append(o.M, jmut.Member{Key: m.Key, Val: v2.Clone()})
+					out = append(out, c08edit{"repeat-member-after", kp, d})
+					d2 := doc.Clone()
+					o2 := d2.At(p)
+					o2.M = append(append(append([]jmut.Member{}, o2.M[:mi]...), jmut.Member{Key: m.Key, Val: v2.Clone()}), o2.M[mi:]...)
+					out = append(out, c08edit{"repeat-member-before", kp, d2})
+				}
+			}
 			// a member the schema does not know (outside the claim: observed only)
 			d := doc.Clone()
 			d.At(p).Set("x_verif_unknown", jmut.S("1"))
@@ -363,6 +392,22 @@ func runC08(c *Ctx) {
 				c.R.Count("unknown_member_additions_not_detected(outside_claim)", 1)
 			}
 			c.R.Case(false, id)
+			return
+		}
+		// repeated members: the harness knows the outcome from JSON's reading rule
+		// (the last occurrence counts), whatever the library made of the text
+		switch e.kind {
+		case "repeat-member-after":
+			c.R.Case(true, id)
+			if verr == nil {
+				c.R.Fail("undetected:repeat-member-after:"+cls, fmt.Sprintf("%s: a second %s member with another value after the first changes the document, but the envelope still validates", j.it.Rel, e.path), wit)
+			}
+			return
+		case "repeat-member-before":
+			c.R.Case(false, id)
+			if verr != nil {
+				c.R.Fail("reencode-rejected:repeat-member-before:"+cls, fmt.Sprintf("%s: an earlier %s member that the later one overrides leaves the document as it was, but validation fails: %v", j.it.Rel, e.path, verr), wit)
+			}
 			return
 		}
 		// did the logical content change? the parsed document re-serialised must differ from the original's
